@@ -786,7 +786,10 @@ func (c *LinkLayerDiscovery) SerializeTo(b gopacket.SerializeBuffer, opts gopack
 		}
 		idLen := ((uint16(v.Type) << 9) | v.Length)
 		binary.BigEndian.PutUint16(vb[0:2], idLen)
-		copy(vb[2:], v.Value)
+		n := copy(vb[2:], v.Value)
+		for i := 2 + n; i < len(vb); i++ {
+			vb[i] = 0 // Length exceeds len(Value): do not leak the buffer's prior content
+		}
 	}
 
 	vb, err = b.AppendBytes(2) // End Tlv, 2 bytes
